@@ -283,152 +283,272 @@ let run5 s o =
       Dead
 
 
-(* ---------------------------------------------------------------- loop mode (M-LOOP, v4)
+(* ---------------------------------------------------------------- loop mode (M-LOOP, v4 and v5)
    `driver loop [unfixed]`: same op lines as harness/src/bin/clientloop.rs.  POLL picks the one
    thing poll() does next: connect, pop a queued notification, or the single ready select arm
-   (AMBIG when both the network and the request arm are ready: tokio's select! is random). *)
+   (AMBIG when both the network and the request arm are ready: tokio's select! is random).
+   LNEW starts a history on the v4 loop model (Client/Loop.v), LNEW5 on the v5 one (Client/Loop5.v);
+   the glue (virtual time, broker inbox, which arm is ready) is one functor over both. *)
 let rec take k = function [] -> [] | x :: r -> if k = 0 then [] else x :: take (k - 1) r
 let rec drop k = function [] -> [] | (_ :: r) as l -> if k = 0 then l else drop (k - 1) r
 
-let loop_main unfixed =
-  let stp = if unfixed then l_step_orig else l_step in
-  let te = if unfixed then l_take_enabled_orig else l_take_enabled in
-  let lc = if unfixed then l_clean_orig else l_clean in
-  let l = ref (l_init (n "1") false) in
-  let inbox = ref [] and dropped = ref false and next_sp = ref None and reported = ref 0 in
+type 'l res = RStepped of 'l | RFailed of 'l * string | RDisabled | RPanic
+type 'l conn = CEvent of 'l * string | CError of 'l * string | CDisabled | CPanic
+
+let loop_unfixed = ref false
+
+module type LM = sig
+  type l
+  type pk
+  type rq
+  val init : n -> bool -> l
+  val user_send : l -> rq -> l
+  val yield_ : l -> l res
+  val take : l -> l res
+  val cancel : l -> unit
+  val net : l -> pk list -> l res
+  val net_abort : l -> pk list -> l res
+  (* poll() with no network: session_present and the other ACCEPT arguments *)
+  val reconnect : l -> bool -> string list -> l conn
+  val take_enabled : l -> bool
+  val clean : l -> l option
+  val readb_take : pk list -> pk list * pk list
+  val has_events : l -> bool
+  val has_pending : l -> bool
+  val connected : l -> bool
+  val wire : l -> string list
+  val last_yielded : l -> string
+  val pending_s : l -> string list
+  val parse_packet : string list -> pk
+  val parse_send : string -> string list -> rq
+end
+
+module L4 : LM = struct
+  type l = lstate
+  type pk = packet
+  type rq = request
+  let stp l o = (if !loop_unfixed then l_step_orig else l_step) l o
+  let conv = function
+    | Stepped l' -> RStepped l'
+    | Failed (l', e) -> RFailed (l', error_s e)
+    | Disabled -> RDisabled
+    | LPanic _ -> RPanic
+  let init = l_init
+  let user_send l r = match stp l (UserSend r) with Stepped l' -> l' | _ -> l
+  let yield_ l = conv (stp l Yield)
+  let take l = conv (stp l TakeRequest)
+  let cancel l = ignore (stp l TakeCancelled)
+  let net l b = conv (stp l (Net b))
+  let net_abort l b = conv (stp l (NetAbort b))
+  let reconnect l sp _ =
+    match stp l (Reconnect sp) with
+    | Stepped l' -> CEvent (l', Printf.sprintf "I(CONNACK:%d:0)" (if sp then 1 else 0))
+    | Failed (l', e) -> CError (l', error_s e)
+    | Disabled -> CDisabled
+    | LPanic _ -> CPanic
+  let take_enabled l = (if !loop_unfixed then l_take_enabled_orig else l_take_enabled) l
+  let clean l = match (if !loop_unfixed then l_clean_orig else l_clean) l with Ok l' -> Some l' | _ -> None
+  let readb_take = l_readb_take
+  let has_events l = v4_events (l_st l) <> []
+  let has_pending l = l_pending l <> []
+  let connected = l_connected
+  let wire l = List.map packet_s (l_wire l)
+  let last_yielded l = let ys = l_yielded l in event_s (List.nth ys (List.length ys - 1))
+  let pending_s l = List.map request_s (l_pending l)
+  let parse_packet = parse_packet
+  let parse_send line = function
+    | "PUB" :: q :: _ :: t :: p :: _ -> RPublish { p_qos = qos_of q; p_pkid = n "0"; p_topic = n t; p_payload = n p }
+    | [ "SUB" ] -> RSubscribe (n "1")
+    | [ "UNSUB" ] -> RUnsubscribe (n "1")
+    | [ "DISCONNECT" ] -> RDisconnect
+    | _ -> failwith ("bad SEND: " ^ line)
+end
+
+module L5 : LM = struct
+  type l = lstate5
+  type pk = packet5
+  type rq = request5
+  let stp l o = (if !loop_unfixed then l5_step_orig else l5_step) l o
+  let lerr_s = function LE5State e -> error5_s e | LE5Aborted -> "ConnectionAborted"
+  let conv = function
+    | Stepped5 l' -> RStepped l'
+    | Failed5 (l', e) -> RFailed (l', lerr_s e)
+    | Disabled5 -> RDisabled
+    | LPanic5 _ -> RPanic
+  let init = l5_init
+  let user_send l r = match stp l (UserSend5 r) with Stepped5 l' -> l' | _ -> l
+  let yield_ l = conv (stp l Yield5)
+  let take l = conv (stp l TakeRequest5)
+  let cancel l = ignore (stp l TakeCancelled5)
+  let net l b = conv (stp l (Net5 b))
+  let net_abort l b = conv (stp l (NetAbort5 b))
+  let last_yielded l = let ys = l5_yielded l in event5_s (List.nth ys (List.length ys - 1))
+  (* the CONNACK goes through the state machine and its notification is queued; the same poll()
+     then pops the OLDEST queued notification *)
+  let reconnect l sp rest =
+    let rm, tam = match rest with [] -> (None, None) | [ a ] -> (optn a, None) | a :: b :: _ -> (optn a, optn b) in
+    match stp l (Reconnect5 (sp, rm, tam)) with
+    | Stepped5 l1 -> (
+        match stp l1 Yield5 with
+        | Stepped5 l2 -> CEvent (l2, last_yielded l2)
+        | _ -> CPanic)
+    | Failed5 (l', e) -> CError (l', lerr_s e)
+    | Disabled5 -> CDisabled
+    | LPanic5 _ -> CPanic
+  let take_enabled l = (if !loop_unfixed then l5_take_enabled_orig else l5_take_enabled) l
+  let clean l = Some ((if !loop_unfixed then l5_clean_orig else l5_clean) l)
+  let readb_take = l5_readb_take
+  let has_events l = v5_events (l5_st l) <> []
+  let has_pending l = l5_pending l <> []
+  let connected = l5_connected
+  let wire l = List.map packet5_s (l5_wire l)
+  let pending_s l = List.map request5_s (l5_pending l)
+  let parse_packet = parse_packet5
+  let parse_send line = function
+    | "PUB" :: q :: _ :: t :: p :: _ -> R5Publish { q_qos = qos_of q; q_pkid = n "0"; q_topic = n t; q_payload = n p; q_alias = None }
+    | [ "SUB" ] -> R5Subscribe (n "1")
+    | [ "UNSUB" ] -> R5Unsubscribe (n "1")
+    | [ "DISCONNECT" ] -> R5Disconnect
+    | _ -> failwith ("bad SEND: " ^ line)
+end
+
+module Glue (M : LM) = struct
+  let l = ref (M.init (n "1") false)
+  let inbox = ref [] and dropped = ref false and next_acc = ref None and reported = ref 0
   (* virtual time (ms), pending_throttle, broker writes scheduled with NETAT: (time, packets) *)
-  let now = ref 0 and throttle = ref 0 and sched = ref [] in
+  let now = ref 0 and throttle = ref 0 and sched = ref []
+
   let wire_delta () =
-    let w = l_wire !l in
+    let w = M.wire !l in
     let d = drop !reported w in
     reported := List.length w;
-    String.concat " " (List.map packet_s d)
-  in
+    String.concat " " d
+
+  (* the arm has run: poll() returns the first queued notification *)
   let yield_one head =
-    (* the arm has run: poll() returns the first queued notification *)
-    match stp !l Yield with
-    | Stepped l' ->
-        let ys = l_yielded l' in
+    match M.yield_ !l with
+    | RStepped l' ->
         l := l';
-        Printf.printf "EVENT %s WIRE[%s]\n%!" (event_s (List.nth ys (List.length ys - 1))) (wire_delta ())
+        Printf.printf "EVENT %s WIRE[%s]\n%!" (M.last_yielded l') (wire_delta ())
     | _ -> Printf.printf "%s WIRE[%s]\n%!" head (wire_delta ())
-  in
-  let arm op =
-    match stp !l op with
-    | Stepped l' -> l := l'; yield_one "NOEVENT"
-    | Failed (l', e) -> l := l'; reported := 0; Printf.printf "ERROR %s WIRE[]\n%!" (error_s e)
-    | Disabled -> print_endline "DISABLED"
-    | LPanic _ -> print_endline "PANIC"
-  in
-  iter_lines (fun line ->
-      match split_ws line with
-      | [] -> ()
-      | "LNEW" :: max :: manual :: rest ->
-          l := l_init (n max) (manual = "1");
-          inbox := []; dropped := false; next_sp := None; reported := 0;
-          now := 0; sched := []; throttle := (match rest with [ x ] -> int_of_string x | _ -> 0);
-          print_endline "NEW"
-      | "SEND" :: r ->
-          let req =
-            match r with
-            | "PUB" :: q :: _ :: t :: p :: _ -> RPublish { p_qos = qos_of q; p_pkid = n "0"; p_topic = n t; p_payload = n p }
-            | [ "SUB" ] -> RSubscribe (n "1")
-            | [ "UNSUB" ] -> RUnsubscribe (n "1")
-            | [ "DISCONNECT" ] -> RDisconnect
-            | _ -> failwith ("bad SEND: " ^ line)
+
+  let arm r =
+    match r with
+    | RStepped l' -> l := l'; yield_one "NOEVENT"
+    | RFailed (l', e) -> l := l'; reported := 0; Printf.printf "ERROR %s WIRE[]\n%!" e
+    | RDisabled -> print_endline "DISABLED"
+    | RPanic -> print_endline "PANIC"
+
+  let packets_of rest =
+    List.concat_map (fun part -> match split_ws part with [] -> [] | toks -> [ M.parse_packet toks ]) (String.split_on_char ';' rest)
+
+  let handle line toks =
+    match toks with
+    | [] -> ()
+    | _ :: max :: manual :: rest when (match toks with ("LNEW" | "LNEW5") :: _ -> true | _ -> false) ->
+        l := M.init (n max) (manual = "1");
+        inbox := []; dropped := false; next_acc := None; reported := 0;
+        now := 0; sched := []; throttle := (match rest with [ x ] -> int_of_string x | _ -> 0);
+        print_endline "NEW"
+    | "SEND" :: r -> l := M.user_send !l (M.parse_send line r); print_endline "OK"
+    | "ACCEPT" :: sp :: rest -> next_acc := Some (sp = "1", rest); inbox := []; dropped := false; sched := []; print_endline "OK"
+    | "NETAT" :: delay :: _ ->
+        if M.connected !l && not !dropped then begin
+          let rest = String.concat " " (List.tl (List.tl toks)) in
+          sched := List.stable_sort (fun (a, _) (b, _) -> compare a b) (!sched @ [ (!now + int_of_string delay, packets_of rest) ])
+        end;
+        print_endline "OK"
+    | "NET" :: _ ->
+        if M.connected !l && not !dropped then inbox := !inbox @ packets_of (String.sub line 3 (String.length line - 3));
+        print_endline "OK"
+    | [ "DROP" ] -> dropped := true; print_endline "OK"
+    | "POLL" :: _ | "POLLT" :: _ ->
+        let ms = (match toks with [ "POLLT"; x ] -> int_of_string x | _ -> 1) in
+        let limit = !now + ms in
+        if not (M.connected !l) then begin
+          match !next_acc with
+          | Some (sp, rest) -> (
+              next_acc := None;
+              match M.reconnect !l sp rest with
+              | CEvent (l', e) -> l := l'; reported := 0; Printf.printf "EVENT %s WIRE[CONNECT]\n%!" e
+              | CError (l', e) -> l := l'; reported := 0; Printf.printf "ERROR %s WIRE[CONNECT]\n%!" e
+              | CDisabled -> print_endline "DISABLED"
+              | CPanic -> print_endline "PANIC")
+          | None -> print_endline "NOCONN"
+        end
+        else if M.has_events !l then yield_one "NOEVENT"
+        else begin
+          let run_net () =
+            let batch, rest = M.readb_take !inbox in
+            inbox := rest;
+            if List.length batch < 9 && !dropped then arm (M.net_abort !l batch)
+            else if !dropped then begin
+              (* a full batch, then the flush of its replies hits the closed transport *)
+              match M.net !l batch with
+              | RStepped l' when List.length (M.wire l') > List.length (M.wire !l) ->
+                  (match M.net_abort !l batch with
+                   | RFailed (l'', _) -> l := l''; reported := 0; Printf.printf "ERROR Deserialization WIRE[]\n%!"
+                   | _ -> print_endline "PANIC")
+              | r -> arm r
+            end
+            else arm (M.net !l batch)
           in
-          (match stp !l (UserSend req) with Stepped l' -> l := l' | _ -> ());
-          print_endline "OK"
-      | [ "ACCEPT"; sp ] -> next_sp := Some (sp = "1"); inbox := []; dropped := false; sched := []; print_endline "OK"
-      | "NETAT" :: delay :: _ ->
-          if l_connected !l && not !dropped then begin
-            let rest = String.concat " " (List.tl (List.tl (split_ws line))) in
-            let pk = List.concat_map (fun part -> match split_ws part with [] -> [] | toks -> [ parse_packet toks ]) (String.split_on_char ';' rest) in
-            sched := List.stable_sort (fun (a, _) (b, _) -> compare a b) (!sched @ [ (!now + int_of_string delay, pk) ])
-          end;
-          print_endline "OK"
-      | "NET" :: _ ->
-          if l_connected !l && not !dropped then begin
-            let parts = String.split_on_char ';' (String.sub line 3 (String.length line - 3)) in
-            List.iter (fun part -> match split_ws part with [] -> () | toks -> inbox := !inbox @ [ parse_packet toks ]) parts
-          end;
-          print_endline "OK"
-      | [ "DROP" ] -> dropped := true; print_endline "OK"
-      | "POLL" :: _ | "POLLT" :: _ ->
-          let ms = (match split_ws line with [ "POLLT"; x ] -> int_of_string x | _ -> 1) in
-          let limit = !now + ms in
-          if not (l_connected !l) then begin
-            match !next_sp with
-            | Some sp -> (
-                next_sp := None;
-                match stp !l (Reconnect sp) with
-                | Stepped l' ->
-                    l := l'; reported := 0;
-                    Printf.printf "EVENT I(CONNACK:%d:0) WIRE[CONNECT]\n%!" (if sp then 1 else 0)
-                | _ -> print_endline "DISABLED")
-            | None -> print_endline "NOCONN"
+          (* deliver the broker writes that are due now *)
+          let deliver_due () =
+            let due, later = List.partition (fun (t, _) -> t <= !now) !sched in
+            sched := later;
+            List.iter (fun (_, pk) -> inbox := !inbox @ pk) due
+          in
+          deliver_due ();
+          let net_ready = !inbox <> [] || !dropped in
+          let take_ready = M.take_enabled !l in
+          (* a retransmission from pending waits pending_throttle first (the sleep restarts with every poll) *)
+          let take_wait = if take_ready && M.has_pending !l then !throttle else 0 in
+          if net_ready && take_ready && take_wait = 0 then print_endline "AMBIG"
+          else if net_ready then begin
+            if take_ready then M.cancel !l;
+            run_net ()
           end
-          else if v4_events (l_st !l) <> [] then yield_one "NOEVENT"
+          else if take_ready && take_wait = 0 then arm (M.take !l)
           else begin
-            let run_net () =
-              let batch, rest = l_readb_take !inbox in
-              inbox := rest;
-              if List.length batch < 9 && !dropped then arm (NetAbort batch)
-              else if !dropped then begin
-                (* a full batch, then the flush of its replies hits the closed transport *)
-                match stp !l (Net batch) with
-                | Stepped l' when List.length (l_wire l') > List.length (l_wire !l) ->
-                    (match stp !l (NetAbort batch) with
-                     | Failed (l'', _) -> l := l''; reported := 0; Printf.printf "ERROR Deserialization WIRE[]\n%!"
-                     | _ -> print_endline "PANIC")
-                | _ -> arm (Net batch)
+            let ts = match !sched with (t, _) :: _ -> t | [] -> max_int in
+            let tk = if take_ready then !now + take_wait else max_int in
+            if ts >= limit && tk >= limit then begin
+              (* nothing completes within the bound: the poll is dropped; a throttle wait in progress is cancelled *)
+              if (ts = limit && ts <> max_int) || (tk = limit && tk <> max_int) then print_endline "AMBIG"
+              else begin
+                if take_ready then M.cancel !l;
+                now := limit;
+                Printf.printf "IDLE WIRE[%s]\n%!" (wire_delta ())
               end
-              else arm (Net batch)
-            in
-            (* deliver the broker writes that are due now *)
-            let deliver_due () =
-              let due, later = List.partition (fun (t, _) -> t <= !now) !sched in
-              sched := later;
-              List.iter (fun (_, pk) -> inbox := !inbox @ pk) due
-            in
-            deliver_due ();
-            let net_ready = !inbox <> [] || !dropped in
-            let take_ready = te !l in
-            (* a retransmission from pending waits pending_throttle first (the sleep restarts with every poll) *)
-            let take_wait = if take_ready && l_pending !l <> [] then !throttle else 0 in
-            if net_ready && take_ready && take_wait = 0 then print_endline "AMBIG"
-            else if net_ready then begin
-              if take_ready then ignore (stp !l TakeCancelled);
+            end
+            else if ts = tk then print_endline "AMBIG"
+            else if ts < tk then begin
+              (* a broker packet arrives during the throttle wait: select() drops the request arm *)
+              now := ts; deliver_due ();
+              if take_ready then M.cancel !l;
               run_net ()
             end
-            else if take_ready && take_wait = 0 then arm TakeRequest
-            else begin
-              let ts = match !sched with (t, _) :: _ -> t | [] -> max_int in
-              let tk = if take_ready then !now + take_wait else max_int in
-              if ts >= limit && tk >= limit then begin
-                (* nothing completes within the bound: the poll is dropped; a throttle wait in progress is cancelled *)
-                if (ts = limit && ts <> max_int) || (tk = limit && tk <> max_int) then print_endline "AMBIG"
-                else begin
-                  if take_ready then ignore (stp !l TakeCancelled);
-                  now := limit;
-                  Printf.printf "IDLE WIRE[%s]\n%!" (wire_delta ())
-                end
-              end
-              else if ts = tk then print_endline "AMBIG"
-              else if ts < tk then begin
-                (* a broker packet arrives during the throttle wait: select() drops the request arm *)
-                now := ts; deliver_due ();
-                if take_ready then ignore (stp !l TakeCancelled);
-                run_net ()
-              end
-              else begin now := tk; arm TakeRequest end
-            end
+            else begin now := tk; arm (M.take !l) end
           end
-      | [ "FINISH" ] -> (
-          match lc !l with
-          | Ok l' -> Printf.printf "HELD [%s]\n%!" (String.concat " " (List.map request_s (l_pending l')))
-          | _ -> print_endline "PANIC")
-      | _ -> failwith ("bad loop op: " ^ line))
+        end
+    | [ "FINISH" ] -> (
+        match M.clean !l with
+        | Some l' -> Printf.printf "HELD [%s]\n%!" (String.concat " " (M.pending_s l'))
+        | None -> print_endline "PANIC")
+    | _ -> failwith ("bad loop op: " ^ line)
+end
+
+module G4 = Glue (L4)
+module G5 = Glue (L5)
+
+let loop_main unfixed =
+  loop_unfixed := unfixed;
+  let cur = ref 4 in
+  iter_lines (fun line ->
+      let toks = split_ws line in
+      (match toks with "LNEW" :: _ -> cur := 4 | "LNEW5" :: _ -> cur := 5 | _ -> ());
+      if !cur = 4 then G4.handle line toks else G5.handle line toks)
 
 (* ---------------------------------------------------------------- keep-alive mode (M-KEEPALIVE)
    `driver ka [unfixed]`: the scenario lines of harness/src/bin/clientloop.rs (KA / KACONN).  The
